@@ -728,6 +728,7 @@ def run(ctx):
     C.coq_lib()
     ctx.trusted = TRUSTED
     ctx.coq_file(os.path.join(C.COQ, "props", "C02.v"))
+    ctx.coq_file(os.path.join(C.COQ, "props", "C02_pages.v"))      # every page kind of the writer through the specification decoder
     bad = C.hygiene()
     ctx.obligation("hygiene: no Admitted/Axiom/Parameter/... in coq/", not bad, "; ".join(bad))
     C.shadow()
